@@ -20,7 +20,7 @@ RULE = ("Occupation lists (0-8 modes, 0-5 photons per mode, ints only), two furt
         "Non-trivial = >= 2 modes and >= 1 photon, or a herald dict with "
         ">= 2 keys not in ascending order; distinct = case JSON.")
 ASSUMPTIONS = ["State(list) keeps the caller's list object; mutating that list is outside 'through the API'",
-               "occupations are Python ints (no bools / floats)"]
+               "occupations are Python or numpy integers (no bools / floats)"]
 
 occ = st.lists(st.integers(0, 5), min_size=0, max_size=8)
 
